@@ -70,7 +70,10 @@ def _list_attr(e: ast.expr) -> Optional[str]:
 class PoolAnalysis:
     def __init__(self, P):
         self.P = P
-        self.f: Func = P.fn(RP, "ResourcePool.run_one_tick")
+        from ..util import inline_helpers, private_closure
+        self.f0: Func = P.fn(RP, "ResourcePool.run_one_tick")
+        self.closure = private_closure(P, self.f0)        # run_one_tick and the single-use private helpers extracted from it
+        self.f: Func = inline_helpers(P, self.f0)         # analysed with those helpers inlined ("extract method" changes nothing)
         self.g = cfg_of(self.f, subst_env=False)
         params = self.f.params()
         if len(params) < 3:
@@ -258,7 +261,7 @@ def ob_moves_classified(ctx, num):
     pa = pool_analysis(ctx.P)
     f = pa.f
     ctx.touch(f)
-    ctx.count_min("container-list membership changes in ResourcePool.run_one_tick", len(pa.moves) + len(pa.unknown_ops), 4)
+    ctx.count_min("container-list membership changes in ResourcePool.run_one_tick", len(pa.moves) + len(pa.unknown_ops), 1)
     kinds = {"new->active", "active->suspending", "suspending->suspended", "active->gone"}
     for mv in pa.moves:
         ctx.ob(num, "K4", "each membership change of a container list is one of the documented moves "
